@@ -26,7 +26,7 @@ CONFIG = {
 }
 
 OBJ_KINDS = ['makespan', 'flowtime', 'priorities', 'start_latest', 'greatest_start', 'indicator_min', 'indicator_max',
-             'bounded_min', 'bounded_max', 'bounded_max', 'multi']
+             'bounded_min', 'bounded_max', 'bounded_max', 'multi', 'multi_weighted']
 
 
 # ----------------------------------------------------------------------------------------------
@@ -127,6 +127,11 @@ def add_objectives(ps, im, kinds, r):
         elif k == 'multi':
             ps.ObjectiveMinimizeMakespan()
             ps.ObjectiveMinimizeFlowtime()
+        elif k == 'multi_weighted':
+            # weighted sum of a raw expression objective and an indicator objective
+            ps.Objective(name='RawEnd', target=tasks[0]._end, weight=r.choice([2, 3]), kind='minimize')
+            ind = ps.IndicatorFromMathExpression(name='LastStart', expression=tasks[-1]._start)
+            ps.ObjectiveMinimizeIndicator(target=ind, weight=r.choice([1, 2]))
 
 
 def run_case(args):
@@ -379,6 +384,28 @@ def analyse(out, case, solver, tasks, varlist, outs, marks, sp, z3):
                         best = None
                         break
                 out['ref_opt'] = best
+                # several objectives: the reference is the weighted sum written down by the harness itself from the
+                # declared weights and targets (not the library's EquivalentSingleObjective variable)
+                objs_decl = list(solver.problem.objectives.values())
+                own = None
+                if len([o2 for o2 in objs_decl if o2.name != 'MinimizeEquivalentObjective']) > 1:
+                    own = z3.Sum([o2.weight * o2._target for o2 in objs_decl if o2.name != 'MinimizeEquivalentObjective'])
+                    s3 = base_check()
+                    if s3.check() == z3.sat:
+                        b2 = s3.model().eval(own, model_completion=True).as_long()
+                        for _ in range(200):
+                            s3.push()
+                            s3.add(own < b2 if direction == 'Minimize' else own > b2)
+                            if s3.check() == z3.sat:
+                                b2 = s3.model().eval(own, model_completion=True).as_long()
+                                s3.pop()
+                            else:
+                                s3.pop()
+                                break
+                        if final[0] == 'ret' and final[1] in models and answers.get(nchecks - 1) == 'unsat':
+                            got2 = models[final[1]].eval(own, model_completion=True).as_long()
+                            if got2 != b2:
+                                sem.append(('weighted-sum-not-optimal', got2, b2))
                 if final[0] == 'ret' and final[1] in models and best is not None:
                     got = values[final[1]]
                     completed = (answers.get(nchecks - 1) == 'unsat')
